@@ -5,6 +5,8 @@ import Bch.Drive.C06
 import Bch.Drive.C05
 import Bch.Drive.C11
 import Bch.Drive.C13
+import Bch.Drive.C16
+import Bch.Drive.C17
 open Bch.Drive
 
 def dispatch (id : String) : Option Runner :=
@@ -22,6 +24,8 @@ def dispatch (id : String) : Option Runner :=
   | "C12" => some C11.run
   | "C13" => some C13.run
   | "C14" => some C13.run
+  | "C16" => some C16.run
+  | "C17" => some C17.run
   | _ => none
 
 def handle (line : String) : String :=
